@@ -613,3 +613,242 @@ func factText(fct core.Fact) string {
 	}
 	return side(c.X) + " " + c.Op.String() + " " + side(c.Y)
 }
+
+// ---------------------------------------------------------------- R13.10 the recogniser steps over the master's lazy-expiry deletion of the marker (W38)
+
+// ruleMirroredTxnToleratesLazyExpiry: every transaction the tool writes begins
+// with `SET <marker> … PX <ttl>`: the marker key is volatile, and each unit
+// overwrites the marker the previous unit of the slot left behind. A master
+// that executes a write on a key which is logically expired but not yet
+// reaped deletes the key first and propagates that deletion — `DEL key`, or
+// `UNLINK key` with lazyfree-lazy-expire — in front of the command, inside the
+// same MULTI/EXEC. The opposite link then reads
+// `MULTI; DEL marker; SET marker …; business…; EXEC`. A recogniser that tests
+// element 0 of that list for the marker SET on every path takes the tool's own
+// transaction for a client's and sends it back (W38). Necessary: for each of
+// DEL and UNLINK there is a path of the recogniser on which the first command
+// was seen to be that deletion and the marker test is applied to a later
+// element of the list.
+func ruleMirroredTxnToleratesLazyExpiry(w *core.World, r *core.Report) {
+	f := fn(w, r, "syncer.isBisyncMirroredTransaction")
+	if f == nil {
+		return
+	}
+	const construct = "isBisyncMirroredTransaction/steps-over-lazy-expiry-deletion"
+	// the writers make the marker volatile: SET <marker> <value> PX|EX|PXAT|EXAT …
+	volatile, writers := false, 0
+	for _, name := range []string{"(*syncer.RedisOutput).dispatchBisyncUnit", "(*syncer.RedisOutput).execBisyncRdbUnit"} {
+		g := w.Func(name)
+		if g == nil {
+			continue
+		}
+		// the writer itself, or a helper of the package it puts the marker through
+		var sites []core.Site
+		for _, h := range reachableFuncs(g) {
+			sites = append(sites, core.Sites(h, true)...)
+		}
+		for _, s := range sites {
+			if !s.Common().IsInvoke() || s.Method != "Put" {
+				continue
+			}
+			cmd, ok := core.CmdName(s)
+			el, _ := core.CmdArgs(s)
+			if !ok || cmd != "set" || len(el) == 0 || !core.DependsOn(el[0], isResultOf("pkg/redis/checkpoint.BisyncMarkerKey", -1)) {
+				continue
+			}
+			writers++
+			for _, a := range el[1:] {
+				if str, isS := core.ConstString(core.Unwrap(a)); isS {
+					switch strings.ToLower(str) {
+					case "px", "ex", "pxat", "exat":
+						volatile = true
+					}
+				}
+			}
+		}
+	}
+	if writers == 0 {
+		r.Undecided(construct, f.Pos(), "the marker SET of the transaction writers (dispatchBisyncUnit, execBisyncRdbUnit) was not found: cannot tell whether the marker key is volatile")
+		return
+	}
+	if !volatile {
+		r.OK(construct, f.Pos(), "the writers give the marker no expiry: no lazy-expiry deletion can precede the marker SET")
+		return
+	}
+	var cmdsPar *ssa.Parameter
+	for _, p := range f.Params {
+		if _, isSl := p.Type().Underlying().(*types.Slice); isSl {
+			cmdsPar = p
+		}
+	}
+	if cmdsPar == nil {
+		r.Unresolved(construct, "isBisyncMirroredTransaction: the command list parameter was not found")
+		return
+	}
+	// offsetsIn: the positions (in the list the function was handed) that v — an element, a load of it, a field of
+	// it, or a re-slicing cmds[c:] of the list — may stand for, as a bit set over 0, 1, 2, "3 or more". A loop
+	// variable (`for … { cmds = cmds[1:] }`) stays symbolic on a path: it stands for what flows in on any edge.
+	shift := func(set uint, by int64) uint {
+		out := uint(0)
+		for k := int64(0); k < 4; k++ {
+			if set&(1<<uint(k)) != 0 {
+				n := k + by
+				if n > 3 {
+					n = 3
+				}
+				if n >= 0 {
+					out |= 1 << uint(n)
+				}
+			}
+		}
+		return out
+	}
+	phiSet := map[*ssa.Phi]uint{}
+	var offsetsIn func(p *core.Path, v ssa.Value, depth int) uint
+	offsetsIn = func(p *core.Path, v ssa.Value, depth int) uint {
+		if depth > 8 || v == nil {
+			return 0
+		}
+		v = p.Resolve(v)
+		switch x := v.(type) {
+		case *ssa.Parameter:
+			if x == cmdsPar {
+				return 1
+			}
+		case *ssa.Phi:
+			if cur, busy := phiSet[x]; busy {
+				return cur
+			}
+			phiSet[x] = 0
+			for round := 0; round < 4; round++ {
+				set := phiSet[x]
+				for _, e := range x.Edges {
+					set |= offsetsIn(p, e, depth+1)
+				}
+				if set == phiSet[x] {
+					break
+				}
+				phiSet[x] = set
+			}
+			set := phiSet[x]
+			delete(phiSet, x)
+			return set
+		case *ssa.UnOp:
+			if x.Op == token.MUL {
+				return offsetsIn(p, x.X, depth+1)
+			}
+		case *ssa.IndexAddr:
+			if idx, isC := core.ConstInt(p.Resolve(x.Index)); isC {
+				return shift(offsetsIn(p, x.X, depth+1), idx)
+			}
+		case *ssa.Index:
+			if idx, isC := core.ConstInt(p.Resolve(x.Index)); isC {
+				return shift(offsetsIn(p, x.X, depth+1), idx)
+			}
+		case *ssa.Slice:
+			if x.Low == nil {
+				return offsetsIn(p, x.X, depth+1)
+			}
+			if lo, isC := core.ConstInt(p.Resolve(x.Low)); isC {
+				return shift(offsetsIn(p, x.X, depth+1), lo)
+			}
+		case *ssa.FieldAddr:
+			return offsetsIn(p, x.X, depth+1)
+		case *ssa.Field:
+			return offsetsIn(p, x.X, depth+1)
+		case *ssa.Alloc:
+			// a command copied into a local (a struct parameter is spilled to one): what was stored into it as a whole
+			set := uint(0)
+			for _, st := range core.CellStores(x) {
+				set |= offsetsIn(p, st.Val, depth+1)
+			}
+			return set
+		}
+		return 0
+	}
+	// nameOfFirst: v is the command name of element 0 of the list (as handed in), possibly case-folded
+	nameOfFirst := func(p *core.Path, v ssa.Value) bool {
+		v = core.Unwrap(p.Resolve(v))
+		for i := 0; i < 3; i++ {
+			c, ok := v.(*ssa.Call)
+			if !ok {
+				break
+			}
+			switch core.ResolveCall(c).Name {
+			case "strings.ToLower", "strings.ToUpper":
+				v = core.Unwrap(p.Resolve(c.Call.Args[0]))
+				continue
+			}
+			break
+		}
+		if bt, isB := v.Type().Underlying().(*types.Basic); !isB || bt.Info()&types.IsString == 0 {
+			return false
+		}
+		switch v.(type) {
+		case *ssa.UnOp, *ssa.Field:
+		default:
+			return false
+		}
+		return offsetsIn(p, v, 0)&1 != 0
+	}
+	sawDeletion := func(p *core.Path, want string) bool {
+		for _, fct := range p.Conds {
+			if c, ok := core.FactCmp(fct); ok && c.Op == token.EQL {
+				x, y := c.X, c.Y
+				if _, isC := x.(*ssa.Const); isC {
+					x, y = y, x
+				}
+				if s, isS := core.ConstString(y); isS && strings.EqualFold(s, want) && nameOfFirst(p, x) {
+					return true
+				}
+			}
+			if call, isCall := core.Unwrap(p.Resolve(fct.Cond)).(*ssa.Call); isCall && fct.Val && core.ResolveCall(call).Name == "strings.EqualFold" && len(call.Call.Args) == 2 {
+				a, b := call.Call.Args[0], call.Call.Args[1]
+				if _, isC := a.(*ssa.Const); isC {
+					a, b = b, a
+				}
+				if s, isS := core.ConstString(b); isS && strings.EqualFold(s, want) && nameOfFirst(p, a) {
+					return true
+				}
+			}
+		}
+		return false
+	}
+	tolerated := map[string]bool{}
+	tests := 0
+	okEnum := core.EnumPathsN(f.Blocks[0], 0, 200000, 2, func(p *core.Path) {
+		if _, isRet := p.End.(*ssa.Return); !isRet {
+			return
+		}
+		for _, in := range p.Instrs {
+			c, isCall := in.(*ssa.Call)
+			if !isCall || core.ResolveCall(c).Name != "syncer.isBisyncMarkerCommand" || len(c.Call.Args) != 1 {
+				continue
+			}
+			tests++
+			if offsetsIn(p, c.Call.Args[0], 0)&^1 == 0 {
+				continue // element 0, or not an element of the list at all
+			}
+			for _, want := range []string{"del", "unlink"} {
+				if sawDeletion(p, want) {
+					tolerated[want] = true
+				}
+			}
+		}
+	})
+	if !okEnum {
+		r.Undecided(construct, f.Pos(), "too many paths")
+		return
+	}
+	if tests == 0 {
+		r.Undecided(construct, f.Pos(), "the marker test (isBisyncMarkerCommand) is not applied on any path of the recogniser")
+		return
+	}
+	var missing []string
+	for _, want := range []string{"del", "unlink"} {
+		if !tolerated[want] {
+			missing = append(missing, strings.ToUpper(want))
+		}
+	}
+	r.Check(len(missing) == 0, construct, f.Pos(), "on no path of the recogniser is the marker test applied behind a first command that was seen to be %s (it looks at the first command of the propagated transaction only): the writers create the marker with an expiry (SET <marker> … PX), so a master that finds the previous marker expired but not yet reaped deletes it while executing the SET and propagates `MULTI; %s <marker>; SET <marker> …; …; EXEC`. Such a transaction is not recognised as the tool's own: it is sent back to the site it came from (the business commands are applied there a second time, the other link's bookkeeping keys are created at the wrong site)", strings.Join(missing, " / "), strings.Join(missing, "|"))
+}
